@@ -29,6 +29,12 @@ func (ex *Exec) call(fr *Frame, st *State, ci *ssa.Call) *Val {
 					if len(cj) > 1 {
 						nm = fmt.Sprintf("assert[%s.%d]@call[%s:%d]", clauseLabel(a.Clause, 0), j+1, name, k)
 					}
+					if a.Split != nil {
+						sc := ex.evalBool(fr, a.Split, st, ex.oldState, nil)
+						ex.oblige(st, "assert", nm+"/case1", Implies(sc, x.T), a.Clause.Tags, pos, "assert (case "+a.Split.String()+") "+x.Text)
+						ex.oblige(st, "assert", nm+"/case2", Implies(Not(sc), x.T), a.Clause.Tags, pos, "assert (case !("+a.Split.String()+")) "+x.Text)
+						continue
+					}
 					ex.oblige(st, "assert", nm, x.T, a.Clause.Tags, pos, "assert "+x.Text)
 				}
 				ex.assertsHit[fmt.Sprintf("%s:%d", name, k)] = true
@@ -481,6 +487,9 @@ func (ex *Exec) byContract(fr *Frame, st *State, ci *ssa.Call, ct *Contract, key
 	}
 	cpre := &SCtx{ex: ex, pkg: pkg, env: env, cur: st, old: nil, goal: true}
 	for i, c := range ct.Requires {
+		if c.Cfg != "" && c.Cfg != ex.p.cfgName {
+			continue
+		}
 		cj := cpre.conjuncts(c.Expr)
 		for j, x := range cj {
 			nm := fmt.Sprintf("pre[%s]@call[%s:%s]", clauseLabel(c, i), short, ord)
@@ -550,6 +559,9 @@ func (ex *Exec) byContract(fr *Frame, st *State, ci *ssa.Call, ct *Contract, key
 	for _, c := range ct.Ensures {
 		if c.AtReturn > 0 {
 			continue // return-specific clauses mention the callee's locals; they are not visible to callers
+		}
+		if c.Cfg != "" && c.Cfg != ex.p.cfgName {
+			continue
 		}
 		ex.assume(st.pc, cpost.bool(c.Expr))
 	}
